@@ -69,8 +69,10 @@ static std::vector<std::string> needed_words(const std::vector<int> & ks) {
 		if (first_a() != -1) g_need_html.push_back("znote");
 		if (has(23)) g_need_html.push_back("zcite");
 		if (has(24)) g_need_html.push_back("zgloss");
-		bool indented_a = false; for (int k : ks) if (k == 35) indented_a = true;          // an indented `[^a]:` elsewhere may be the definition that counts
-		if (first_a() == 37 && has(38) && !indented_a) g_need_html.push_back("zinner");
+		// any other `[^a]:` line before it -- indented, or glued to the line above, whether or not this model counts it as a block of its own -- may be
+		// the definition that counts (the first one does), and then nobody calls [^b]
+		int first_a_line = -1; for (int k : ks) if (k == 22 || k == 35 || k == 37) { first_a_line = k; break; }
+		if (first_a() == 37 && has(38) && first_a_line == 37) g_need_html.push_back("zinner");
 	}
 	return need;
 }
